@@ -439,6 +439,19 @@ func runC01HashArms(c *Ctx) {
 			case Match("call[z.MemHash](?x)", t0, env) && Match("call[xxhash.Sum64](?x)", t1, env):
 				shapeOK = true
 			}
+			if shapeOK && fromKey && !isRefl && env["x"] != nil {
+				// typed arm: the operand hashed is the key itself (the asserted value, or a whole-value
+				// string/[]byte conversion of it) - not a view of it with another length (cap(k), a
+				// prefix, unsafe.String over the backing array): distinct keys would share both hashes
+				x := env["x"]
+				if x.Op == "conv" && len(x.Args) == 1 {
+					x = x.Args[0]
+				}
+				if !Match("assert(p[0])", x, nil) {
+					L.Fail("R-C01-HASHARMS", cons, "typed arm hashes "+env["x"].String()+", not the key value itself: the bytes covered by the two hashes differ from the key's own bytes (e.g. capacity instead of length), so different keys collide on both hashes", r.Pos())
+					continue
+				}
+			}
 			if shapeOK && fromKey && isRefl {
 				// the accessor must be the one that is defined for the reflect.Kind governing this arm
 				// (v.String() of a Slice value is the constant "<[]uint8 Value>": all such keys would collide).
